@@ -357,13 +357,34 @@ func c15CheckCBOR(s shape, fresh func() any, plainComparable bool) string {
 			return fmt.Sprintf("populate succeeds although the non-optional key %d is missing from the input", f.key)
 		}
 	}
-	// a duplicate key is an error
+	// a duplicate key is an error - in whatever form the map arrives
+	// (definite, indefinite-length, tag-wrapped, duplicate first or last)
 	if len(n.Pairs) > 0 {
 		for _, at := range []int{0, len(n.Pairs) - 1} {
+			k, _ := n.Pairs[at][0].Int()
 			ps := append(append([][2]*icbor.Node{}, n.Pairs...), n.Pairs[at])
-			if err := encoding.PopulateStructFromCBOR(hdm, icbor.Encode(icbor.Map(ps...)), fresh()); err == nil {
-				k, _ := n.Pairs[at][0].Int()
-				return fmt.Sprintf("populate succeeds on CBOR input with duplicate key %d", k)
+			front := append([][2]*icbor.Node{n.Pairs[at]}, n.Pairs...)
+			forms := map[string]*icbor.Node{
+				"definite":          icbor.Map(ps...),
+				"definite, first":   icbor.Map(front...),
+				"indefinite":        icbor.Map(ps...).WithIndef(),
+				"tagged":            icbor.Tag(55799, icbor.Map(ps...)),
+				"tagged indefinite": icbor.Tag(55799, icbor.Map(front...).WithIndef()),
+			}
+			for name, f := range forms {
+				if err := encoding.PopulateStructFromCBOR(hdm, icbor.Encode(f), fresh()); err == nil {
+					return fmt.Sprintf("populate succeeds on CBOR input (%s map) with duplicate key %d", name, k)
+				}
+			}
+		}
+	}
+	// the same entries as an indefinite-length or tag-wrapped map: if the
+	// helper accepts that form at all, the value must be the same
+	for name, f := range map[string]*icbor.Node{"indefinite": icbor.Map(n.Pairs...).WithIndef(), "tagged": icbor.Tag(55799, icbor.Map(n.Pairs...))} {
+		d2 := fresh()
+		if err := encoding.PopulateStructFromCBOR(hdm, icbor.Encode(f), d2); err == nil {
+			if exp := stripHidden(s); !reflect.DeepEqual(d2, exp) {
+				return fmt.Sprintf("populate from the %s form of the serialiser's output gives a different value", name)
 			}
 		}
 	}
@@ -835,6 +856,196 @@ func extTimestamp(c psatoken.IClaims) *int64 {
 		return e.Timestamp
 	case *ExtP1Claims:
 		return e.Timestamp
+	}
+	return nil
+}
+
+// ---- populate calls must not influence one another ----
+
+// every key / member name used by some shape of the family
+var c15AllCBORKeys = []int64{1, 2, 3, -4, 5, 600, -70000, 10, 11, 20, 21, 30, 40, 41, 50, 51}
+var c15AllJSONNames = []string{"a", "b", "c", "d", "e", "f", "g", "x", "y", "p", "q", "z", "r", "s", "t", "u"}
+
+func TestC15_Sequences(t *testing.T) {
+	st := NewStats("C15", "TestC15_Sequences", "rapid: sequences of 2..8 populate calls (CBOR and JSON mixed) over the shape family; every input is the serialiser's output for a drawn value, plus 0..3 extra entries the destination does not know but OTHER shapes do (same key numbers / member names, well-typed values), and, in a third of the steps, minus one non-optional key. Each call is judged on its own, independent of the history: success with populate == value (unknown entries ignored), or an error when a non-optional key is missing. Catches state carried from one call to the next (recycled containers). Non-trivial = sequence has an extra entry in one step and a missing key later; distinct = sequence of (shape, format, extras, dropped)")
+	st.Require = []string{"extras", "dropped-mandatory", "cbor", "json"}
+	defer st.Flush(t)
+	rapid.Check(t, func(t *rapid.T) {
+		n := rapid.IntRange(2, 8).Draw(t, "steps")
+		var trace []string
+		sawExtra, sawDropAfterExtra := false, false
+		for i := 0; i < n; i++ {
+			s, fresh, name := drawShape(t)
+			format := rapid.SampledFrom([]string{"cbor", "json"}).Draw(t, "format")
+			own := map[string]bool{}
+			var mand []fd
+			for _, f := range s.fields() {
+				own[fmt.Sprint(f.key)] = true
+				own[f.name] = true
+				if f.emit && !f.omit {
+					mand = append(mand, f)
+				}
+			}
+			// also names the shape knows but did not emit
+			nExtra := rapid.IntRange(0, 3).Draw(t, "nextra")
+			drop := -1
+			if len(mand) > 0 && rapid.IntRange(0, 2).Draw(t, "drop") == 0 {
+				drop = rapid.IntRange(0, len(mand)-1).Draw(t, "dropidx")
+			}
+			step := fmt.Sprintf("%s/%s", name, format)
+			var err error
+			dst := fresh()
+			if format == "cbor" {
+				out, serr := encoding.SerializeStructToCBOR(hem, s)
+				if serr != nil {
+					t.Fatalf("C15: serialise failed: %v", serr)
+				}
+				node, _, _ := icbor.Read(out)
+				var ps [][2]*icbor.Node
+				for _, pr := range node.Pairs {
+					if k, _ := pr[0].Int(); drop >= 0 && k == mand[drop].key {
+						continue
+					}
+					ps = append(ps, pr)
+				}
+				for e := 0; e < nExtra; e++ {
+					k := rapid.SampledFrom(c15AllCBORKeys).Draw(t, "extrakey")
+					if own[fmt.Sprint(k)] || allShapeKeyOwned(s, k) {
+						continue
+					}
+					dup := false
+					for _, pr := range ps {
+						if kk, _ := pr[0].Int(); kk == k {
+							dup = true
+						}
+					}
+					if dup {
+						continue
+					}
+					v := rapid.SampledFrom([]*icbor.Node{icbor.Tstr("stale"), icbor.I(77), icbor.Bstr([]byte{7, 7})}).Draw(t, "extraval")
+					ps = append(ps, icbor.P(icbor.I(k), v))
+					step += fmt.Sprintf("+%d", k)
+					sawExtra = true
+				}
+				err = encoding.PopulateStructFromCBOR(hdm, icbor.Encode(icbor.Map(ps...)), dst)
+			} else {
+				out, serr := encoding.SerializeStructToJSON(s)
+				if serr != nil {
+					t.Fatalf("C15: serialise failed: %v", serr)
+				}
+				root, perr := parseJN(out)
+				if perr != nil {
+					t.Fatalf("C15: serialiser's JSON does not parse: %v", perr)
+				}
+				o := jObj()
+				for ki, k := range root.keys {
+					if drop >= 0 && k == mand[drop].name {
+						continue
+					}
+					o.keys = append(o.keys, k)
+					o.vals = append(o.vals, root.vals[ki])
+				}
+				for e := 0; e < nExtra; e++ {
+					k := rapid.SampledFrom(c15AllJSONNames).Draw(t, "extraname")
+					if own[k] || allShapeNameOwned(s, k) {
+						continue
+					}
+					dup := false
+					for _, kk := range o.keys {
+						if kk == k {
+							dup = true
+						}
+					}
+					if dup {
+						continue
+					}
+					v := rapid.SampledFrom([]*jn{jStr("stale"), jNum("77"), jStr("Bwc=")}).Draw(t, "extraval")
+					o.keys = append(o.keys, k)
+					o.vals = append(o.vals, v)
+					step += "+" + k
+					sawExtra = true
+				}
+				err = encoding.PopulateStructFromJSON([]byte(o.String()), dst)
+			}
+			if drop >= 0 {
+				step += fmt.Sprintf("-%s", mand[drop].name)
+				if sawExtra {
+					sawDropAfterExtra = true
+				}
+			}
+			trace = append(trace, step)
+			if drop >= 0 {
+				if err == nil {
+					t.Fatalf("C15 violated: populate succeeds although the non-optional key %d / %q is missing from the input (call %d of the sequence %v): the result depends on earlier calls", mand[drop].key, mand[drop].name, i+1, trace)
+				}
+				continue
+			}
+			if err != nil {
+				t.Fatalf("C15 violated: populate of the serialiser's output plus unknown entries fails: %v (call %d of %v)", err, i+1, trace)
+			}
+			if exp := stripHidden(s); !reflect.DeepEqual(dst, exp) {
+				t.Fatalf("C15 violated: populate gives a value that differs from the serialised one (call %d of %v):\n  got  %s\n  want %s", i+1, trace, dumpJSON(dst), dumpJSON(exp))
+			}
+		}
+		var cls []string
+		if sawExtra {
+			cls = append(cls, "extras")
+		}
+		if strings.Contains(strings.Join(trace, " "), "-") {
+			cls = append(cls, "dropped-mandatory")
+		}
+		if strings.Contains(strings.Join(trace, " "), "/cbor") {
+			cls = append(cls, "cbor")
+		}
+		if strings.Contains(strings.Join(trace, " "), "/json") {
+			cls = append(cls, "json")
+		}
+		key := ""
+		if sawDropAfterExtra {
+			key = strings.Join(trace, ";")
+		}
+		st.Case(key, cls...)
+		if key != "" && st.WantSample() {
+			st.Sample(trace)
+		}
+	})
+}
+
+// allShapeKeyOwned / allShapeNameOwned: does the shape TYPE know the key
+// (including fields that are currently not emitted)?
+func allShapeKeyOwned(s shape, k int64) bool {
+	for _, kk := range shapeTypeKeys(s) {
+		if kk == fmt.Sprint(k) {
+			return true
+		}
+	}
+	return false
+}
+
+func allShapeNameOwned(s shape, name string) bool {
+	for _, kk := range shapeTypeKeys(s) {
+		if kk == name {
+			return true
+		}
+	}
+	return false
+}
+
+func shapeTypeKeys(s shape) []string {
+	inner := []string{"10", "11", "x", "y"}
+	switch s.(type) {
+	case *ShapeFlat:
+		return []string{"1", "2", "3", "-4", "5", "600", "-70000", "a", "b", "c", "d", "e", "f", "g"}
+	case *ShapeOuter1:
+		return append([]string{"20", "21", "p", "q"}, inner...)
+	case *ShapeMid:
+		return append([]string{"30", "z"}, inner...)
+	case *ShapeOuter2:
+		return append([]string{"40", "41", "r", "s", "30", "z"}, inner...)
+	case *ShapeOuterI:
+		return append([]string{"50", "51", "t", "u"}, inner...)
+	case *ShapeAllOptional:
+		return []string{"1", "2", "a", "b"}
 	}
 	return nil
 }
